@@ -1,0 +1,11 @@
+//go:build verif
+
+package dhash
+
+// Test-only accessors for the verification harness (build tag verif).
+
+func VerifDeriveKey(passphrase []byte) []byte { return deriveKey(passphrase) }
+
+func VerifSha256Multiple(dest []byte, payloads ...[]byte) []byte {
+	return sha256Multiple(dest, payloads...)
+}
